@@ -129,6 +129,16 @@ func randNumberLike(r *rand.Rand) string {
 // ValueDict returns the fixed dictionary plus n seeded random strings.
 func ValueDict(r *rand.Rand, n int) []string {
 	out := append([]string{}, HostileStrings...)
+	// one string of every interesting length (powers of two ± 1, and next to every integer
+	// constant of the code under test, their sums and products), plain and full of apostrophes
+	for _, l := range SizesWithProducts([]int{1, 2, 3, 7, 8, 9, 15, 16, 17, 31, 32, 33, 62, 63, 64, 65, 124, 125, 126, 127, 128, 129, 255, 256, 257, 511, 512, 513, 1023, 1024, 1025, 4095, 4096, 4097}, 1, 5000) {
+		if l <= 300 || r.Intn(12) == 0 {
+			out = append(out, strings.Repeat("x", l))
+		}
+		if l >= 2 && l <= 300 {
+			out = append(out, strings.Repeat("'", l/2)+strings.Repeat("z", l-2*(l/2)))
+		}
+	}
 	for i := 0; i < n; i++ {
 		out = append(out, RandString(r))
 	}
